@@ -31,6 +31,7 @@ const (
 	faultEarly    = iota // the call fails at once with the code
 	faultLate            // Get: the stream fails after some bytes; Put: fails after the upload was consumed
 	faultNotFound        // Get only: the replica claims NOT_FOUND although it holds the object (inconsistent replica)
+	faultLose            // Put only: the replica stores and acknowledges the upload and has lost the object when it is looked up afterwards
 )
 
 type fault struct {
@@ -44,6 +45,8 @@ func (f fault) String() string {
 		return "late:" + f.code.String()
 	case faultNotFound:
 		return "spuriousNotFound"
+	case faultLose:
+		return "acceptThenLose"
 	}
 	return "early:" + f.code.String()
 }
@@ -70,6 +73,11 @@ func (c callRec) String() string {
 type replica struct {
 	name string // "A" / "B"
 	kind string // model, localInMemory, localOnDevice
+	// kf is the key format of the replica: KeyWithInstance for replicas that
+	// distinguish instance names (model store keyed with the instance name,
+	// hierarchical local store), KeyWithoutInstance otherwise. It is what a
+	// configuration would put into BlobAccessInfo.DigestKeyFormat.
+	kf   digest.KeyFormat
 	ms   *model.Store
 	ls   *localStore
 	base blobstore.BlobAccess
@@ -92,18 +100,48 @@ type replica struct {
 	// yield, when set, makes every call yield the processor a few times first
 	// (concurrent engine: PRNG-driven schedule perturbation).
 	yield func() int
-	// short names of digests for the trace.
+	// short names of digests for the trace (keyed with the instance name: the
+	// same contents under two instance names are two objects of a scenario).
 	names map[string]string
+	// lost: objects a local replica "lost" after acknowledging their upload
+	// (fault kind faultLose; a model store really deletes them). Keyed by kf.
+	lost map[string]bool
 }
 
-func newModelReplica(name string) *replica {
-	ms := model.NewStore(name, digest.KeyWithoutInstance)
-	return &replica{name: name, kind: "model", ms: ms, base: ms, faults: map[int]fault{}, names: map[string]string{}}
+func newModelReplica(name string, kf digest.KeyFormat) *replica {
+	ms := model.NewStore(name, kf)
+	return &replica{name: name, kind: "model", kf: kf, ms: ms, base: ms, faults: map[int]fault{}, names: map[string]string{}, lost: map[string]bool{}}
 }
 
 func newLocalReplica(name string, cfg localCfg, hashInit uint64) *replica {
 	ls := newLocalStore(cfg, hashInit)
-	return &replica{name: name, kind: cfg.kind.String(), ls: ls, base: ls.ba, faults: map[int]fault{}, names: map[string]string{}}
+	kf := digest.KeyWithoutInstance
+	if cfg.hierarchical {
+		kf = digest.KeyWithInstance
+	}
+	return &replica{name: name, kind: cfg.kind.String(), kf: kf, ls: ls, base: ls.ba, faults: map[int]fault{}, names: map[string]string{}, lost: map[string]bool{}}
+}
+
+// isLost: the replica acknowledged an upload of this object and lost it
+// afterwards (local replicas only; a model store deletes for real).
+func (r *replica) isLost(d digest.Digest) bool {
+	if r.ms != nil {
+		return false
+	}
+	r.mu.Lock()
+	defer r.mu.Unlock()
+	return r.lost[d.GetKey(r.kf)]
+}
+
+// lose makes the replica no longer hold the object.
+func (r *replica) lose(d digest.Digest) {
+	if r.ms != nil {
+		r.ms.Delete(d)
+		return
+	}
+	r.mu.Lock()
+	r.lost[d.GetKey(r.kf)] = true
+	r.mu.Unlock()
 }
 
 // ---- peek (no effect on the store) ----
@@ -112,7 +150,7 @@ func (r *replica) has(d digest.Digest) bool {
 	if r.ms != nil {
 		return r.ms.Has(d)
 	}
-	return r.ls.age(d) != 0
+	return !r.isLost(d) && r.ls.age(d) != 0
 }
 
 // age: 0 absent, 1 present, 2 present in an old block of a local store.
@@ -121,6 +159,9 @@ func (r *replica) age(d digest.Digest) int {
 		if r.ms.Has(d) {
 			return 1
 		}
+		return 0
+	}
+	if r.isLost(d) {
 		return 0
 	}
 	return r.ls.age(d)
@@ -139,6 +180,9 @@ func (r *replica) bytesOK(d digest.Digest, want []byte, final bool) (bool, strin
 			return false, "stored " + gen.Hex8(got) + " want " + gen.Hex8(want)
 		}
 		return true, ""
+	}
+	if r.isLost(d) {
+		return false, "lost"
 	}
 	if !final {
 		return r.ls.age(d) != 0, "absent"
@@ -164,7 +208,7 @@ func (r *replica) place(d digest.Digest, data []byte) error {
 // ---- recording ----
 
 func (r *replica) short(d digest.Digest) string {
-	if n, ok := r.names[d.GetKey(digest.KeyWithoutInstance)]; ok {
+	if n, ok := r.names[d.GetKey(digest.KeyWithInstance)]; ok {
 		return n
 	}
 	h := d.GetHashString()
@@ -198,7 +242,7 @@ func (r *replica) begin(op string, ds ...digest.Digest) (*callRec, *fault) {
 		return c, &fault{kind: faultEarly, code: codes.Internal}
 	}
 	if f, ok := r.faults[c.idx]; ok {
-		if f.kind == faultNotFound && op != "Get" {
+		if f.kind == faultNotFound && op != "Get" || f.kind == faultLose && op != "Put" {
 			return c, nil
 		}
 		return c, &f
@@ -325,6 +369,10 @@ func (r *replica) Get(ctx context.Context, d digest.Digest) buffer.Buffer {
 			return buffer.NewCASBufferFromChunkReader(d, &failingChunkReader{data: append([]byte(nil), data[:len(data)/2]...), err: r.injected(c, f)}, buffer.BackendProvided(buffer.Irreparable(d)))
 		}
 	}
+	if r.isLost(d) {
+		c.result = "notfound"
+		return buffer.NewBufferFromError(status.Errorf(codes.NotFound, "replica %s has lost the object", r.name))
+	}
 	b := r.base.Get(ctx, d)
 	c.bufType = strings.TrimPrefix(strings.TrimPrefix(fmt.Sprintf("%T", b), "*"), "buffer.")
 	// GetSizeBytes does not consume the buffer; on a buffer that a store's own
@@ -343,6 +391,10 @@ func (r *replica) GetFromComposite(ctx context.Context, parent, child digest.Dig
 	if f != nil && f.kind != faultNotFound {
 		c.fired, c.result = f, "fault:"+f.String()
 		return buffer.NewBufferFromError(r.injected(c, f))
+	}
+	if r.isLost(parent) {
+		c.result = "notfound"
+		return buffer.NewBufferFromError(status.Errorf(codes.NotFound, "replica %s has lost the object", r.name))
 	}
 	b := r.base.GetFromComposite(ctx, parent, child, slicer)
 	c.bufType = strings.TrimPrefix(strings.TrimPrefix(fmt.Sprintf("%T", b), "*"), "buffer.")
@@ -387,7 +439,9 @@ func (r *replica) Put(ctx context.Context, d digest.Digest, b buffer.Buffer) err
 	// nothing and fails with the buffer's own error whatever the replica does:
 	// a failure injected here would not be a failure of the replica that
 	// matters to anybody, so none is injected.
-	if f != nil && f.kind != faultNotFound && sizeErr == nil {
+	// faultLose acts after the replica's own Put (below).
+	lose := f != nil && f.kind == faultLose
+	if f != nil && f.kind != faultNotFound && !lose && sizeErr == nil {
 		c.fired, c.result = f, "fault:"+f.String()
 		if f.kind == faultLate {
 			b.ToByteSlice(1 << 20)
@@ -415,6 +469,19 @@ func (r *replica) Put(ctx context.Context, d digest.Digest, b buffer.Buffer) err
 			c.result += "(READS BACK WRONG)"
 		}
 	}
+	if err == nil && r.ls != nil {
+		r.mu.Lock()
+		delete(r.lost, d.GetKey(r.kf))
+		r.mu.Unlock()
+	}
+	if err == nil && lose {
+		// "The replica accepts a Put and has lost the object when it is read
+		// back right afterwards" (a block released between the two calls, a
+		// backend that acknowledges before the data is durable): the upload was
+		// stored and acknowledged for real, then the object is gone.
+		r.lose(d)
+		c.fired, c.result = f, "ok, then "+f.String()
+	}
 	return err
 }
 
@@ -426,6 +493,21 @@ func (r *replica) FindMissing(ctx context.Context, ds digest.Set) (digest.Set, e
 		return digest.EmptySet, r.injected(c, f)
 	}
 	m, err := r.base.FindMissing(ctx, ds)
+	if err == nil && r.ls != nil {
+		var lost []digest.Digest
+		for _, d := range ds.Items() {
+			if r.isLost(d) {
+				lost = append(lost, d)
+			}
+		}
+		if len(lost) > 0 {
+			sb := digest.NewSetBuilder(0)
+			for _, d := range append(lost, m.Items()...) {
+				sb.Add(d)
+			}
+			m = sb.Build()
+		}
+	}
 	if err != nil {
 		c.result = resultOf(err)
 	} else {
